@@ -26,7 +26,8 @@ pub fn explore(opts: &Opts) -> Explored {
         Tier::Quick => (4, 3),
         Tier::Thorough => (4, 4),
     };
-    let sh = shapes(rank, dim);
+    let mut sh = shapes(rank, dim);
+    sh.extend(long_shapes());
     let variants: Vec<u64> = vec![opts.seed % 3, (opts.seed + 1) % 3];
     // (op, valuation kind): 0 positive ints, 1 signed ints with a zero, 2 small positive, 3 small signed, 4 saturating
     let maps: Vec<(OpK, u8)> = vec![
